@@ -16,7 +16,7 @@ T = {
          "reference levels: pattern-profile table (self-tested against the naive definition) and definitional mesh filter; order inside one length is not demanded", "5/C02"),
  "C07": (MC, "stateless schedule exploration of real threads under a cooperative scheduler, iterative preemption bounding (DFS over choice sequences)",
          "Every schedule of eight two-thread harnesses within preemption bound 2 and of a three-thread harness within bound 1 (thorough: bound 3 for four small harnesses, three threads bound 2, four threads bound 1; 2.07M executions); scheduling points = line events in permuta/perm_sets/*.py and lock creation/acquisition; deadlock and hang detection; each execution's answers compared with the reference; recorded schedules replay deterministically.",
-         "CPython GIL semantics; shared class state only touched from permuta/perm_sets/*.py; library locks replaced from outside by cooperative locks; switches inside one source line and more preemptions than the bound are not explored (opcode granularity is not reproducible under adaptive specialisation)", "5/C07"),
+         "CPython GIL semantics; shared class state only touched from permuta/perm_sets/*.py; library locks replaced from outside by cooperative locks; switches between two bytecodes not separated by an attribute/subscript read or a call, and more preemptions than the bound, are not explored (opcode granularity is not reproducible under adaptive specialisation)", "5/C07"),
 }
 # properties whose check module is finished are added here as the work proceeds
 EXTRA = os.path.join(V, "tools", "manifest_extra.json")
@@ -28,6 +28,33 @@ if os.path.exists(EXTRA):
         else:
             T[k] = tuple(v)
 T = {k: v for k, v in T.items() if k in READY}
+# families and dimensions added after the adversarial seeded waves g-i (DESIGN.md 10.3b)
+ADD = {
+ "C01": "Added later: structured long texts at sizes straddling the runtime's thresholds and the constants named by the code (8-12, 31-34, 255-258, 300, ...), with sparse colourings; abort injection (an exception at every function entry of a search, then read-back).",
+ "C02": "Added later: every argument form x entry point for ordered lists of 1-3 mixed patterns; abort injection into every query and into the construction of the class, then read-back.",
+ "C03": "Added later: scale families (pattern nearly as long as the text at n = 9-12, 31-34, 255-258; several shaded cells in one line of a long pattern), argument forms, damage of returned lists, abort injection.",
+ "C04": "Added later: mixed-length sets with one long element in several presentations, operations and equivariance on long objects (also beyond the constants named by the code), helper chains, 12 argument forms, damage of the returned set, abort injection (19 008 points).",
+ "C05": "Added later: cache pressure (2**16+ other classes constructed while six are held), 17-18 argument forms x 7-10 entry points, long patterns with holes in MeshBasis pruning, abort injection into construction.",
+ "C06": "Added later: sub_mesh_pattern on long patterns with sparse/large index sets in 6-9 input forms, damage of the result, abort injection.",
+ "C07": "Added later: granularities 'calls' (entry/return of callees of a watched line) and 'expr' (after every attribute/subscript read and call return in perm_sets, by AST instrumentation at import) - every two-thread harness at bound 1 (thorough bound 2) with 'expr'; scheduling points also in every state-writing function of other modules (AST scan); singleton state restored per execution; harnesses for finite classes.",
+ "C08": "Added later: structured long objects at the runtime thresholds (pair laws, sorted from 13 arrangements, Basis from 7), damage of handed-in/handed-out containers, abort injection, BFS over objects derived from used objects against freshly constructed equal ones.",
+ "C09": "Added later: rank/unrank on every block boundary and around 2**52..2**70 for lengths 13-26/40, long sizes, mesh grids to k = 8/10, container forms x element types, aliasing, abort injection.",
+ "C10": "Added later: ~22 shapes at the runtime thresholds with every index/value/amount near 0, 8, 32, 256, 257, n-1 as fresh ints, 11 construction routes, argument forms, damage of results, abort injection.",
+ "C11": "Added later: all of S9 (S10) with a fixed first entry for the search-type methods, extremal and structured long families, cycle types driving order() across 2**53 and 2**64, argument/class/bijection forms, damage of results, abort injection.",
+ "C12": "Added later: all avoiders of length 9-10 (11-12) and block shapes at the thresholds for Simion-Schmidt, 24 shapes around every constant named by the code incl. the recursion limit for the sorting operators, BFS over live generators of dihedral_group, damage of helper results.",
+ "C13": "Added later: bases {p, s(p)} + reference-computed completion for every p of length <= 5/7, long elements with prescribed descent sets + completion, further argument forms and Av routes, abort injection (74 902 / 129 405 points).",
+ "C14": "Added later: periodic words to length 12/20 against Lemma 3.12 evaluated directly (self-overlapping tails), argument forms, damage of returned lists, abort injection into first-time table builds and decodes.",
+ "C15": "Added later: per-pin-word automata compared exactly with an own construction for every strict pin word of length <= 10/13, argument forms, abort injection and every truncation of a stored automaton.",
+ "C16": "Added later: 12 argument forms x 6 targets, abort injection (one forked process per point), bases with two long elements of the same length (non-pin / pin permutations of length 6) in every order.",
+ "C17": "Added later: the 'bad basis' retry path of auto_bisc as an explored branch - a family of dense one-pattern properties classified with the reference, those reaching the path run end to end.",
+ "C18": "Added later: lengths 7-8 (9) with 1-2 box shadings against a polynomial re-statement of the lemmas, damage of every returned container, BFS over derived patterns (rotate/shade/add_point) against fresh equal ones.",
+ "C19": "Added later: abort injection into find_strategies/applies with read-back in two orders, mixed-length bases (short + length 5) selected with the reference for the slow strategy.",
+ "C20": "Added later: a 17-name alphabet (dots, prefixes, .json, spaces, dotted directory) for every ordered pair of data sets, damage-and-re-read on every read.",
+}
+for _k, _a in ADD.items():
+    if _k in T:
+        lv, tech, text, note, ref = T[_k]
+        T[_k] = (lv, tech, text + " " + _a, note, ref)
 
 checks, na = [], []
 for p in props:
@@ -55,7 +82,7 @@ man = {
            "source_commits": [], "add_only": True},
  "engines": [
   {"name": "mc", "path": "/verif/mc", "serves_properties": [c["property_id"] for c in checks],
-   "kind_free_text": "hand-written explicit-state / stateless explorers in Python running the real library: E1 bounded exhaustive input enumeration against a reference model, E2 BFS over operation histories (mc/explore.py), E3 thread-schedule exploration with preemption bounding (mc/sched.py), E4 automata product exploration, E5 truncation-point enumeration"}],
+   "kind_free_text": "hand-written explicit-state / stateless explorers in Python running the real library: E1 bounded exhaustive input enumeration against a reference model, E2 BFS over operation histories (mc/explore.py), E3 thread-schedule exploration with preemption bounding (mc/sched.py), E4 automata product exploration, E5 truncation-point enumeration, E6 abort injection at every function entry of an operation followed by read-back"}],
  "checks": checks,
  "not_applicable": na,
  "notes": "All checks: ./check <id> --tier quick|thorough from /verif; VERIF_SEED rotates enumeration order only; VERIF_REPO overrides the repository under test. Known findings: /verif/known_findings.json.",
